@@ -992,11 +992,12 @@ ConcurrentTransientHashSet<T, H, E>::begin() noexcept {
     return {node, iter};
   }
   while (ABSL_PREDICT_FALSE(node != nullptr)) {
-    iter = node->table.begin();
-    if (iter != node->table.end()) {
-      return {nullptr, iter};
+    auto table = &node->table;
+    iter = table->begin();
+    node = node->next.load(::std::memory_order_acquire);
+    if (iter != table->end()) {
+      return {node, iter};
     }
-    node = _head.next.load(::std::memory_order_acquire);
   }
   return {};
 }
@@ -1185,7 +1186,8 @@ ABSL_ATTRIBUTE_NOINLINE void ConcurrentTransientHashSet<T, H, E>::reserve(
 template <typename T, typename H, typename E>
 ABSL_ATTRIBUTE_NOINLINE size_t ConcurrentTransientHashSet<T, H, E>::total_size(
     TableNode* node) const noexcept {
-  auto sum = _head.table.bucket_count();
+  // 默认构造的占位头表不可写入也不含元素，不能按桶数计入
+  auto sum = _head.table.size();
   while (true) {
     auto next = node->next.load(::std::memory_order_acquire);
     if (next == nullptr) {
